@@ -81,6 +81,15 @@ def run(ctx):
         if len(ctx.samples) < 2:
             ctx.sample({"mode": mode, "request": req, "points": points, "components": [pc.unhx(c["name"]) for c in case["header"]["components"]]})
         pose = pc.build_pose(case)
+        # a fifth of the poses carry a mask of their own on top of "confidence 0" (an observation masked after the body was built: ma.masked assigned to a cell,
+        # masked_invalid …): the selected point carries the missing flag of the source point, not one re-derived from the confidences
+        extra = []
+        if rng.random() < 0.2:
+            b_ = case["body"]
+            for _ in range(rng.randint(1, 3)):
+                cell = (rng.randrange(b_["frames"]), rng.randrange(b_["people"]), rng.randrange(b_["points"]))
+                pose.body.data[cell] = np.ma.masked; extra.append(cell)
+            ctx.count("source with a mask of its own")
         before = pc.canon_pose(pose)
         try:
             res = pose.get_components(req, points) if mode == "get" else pose.remove_components(req, points)
@@ -128,7 +137,7 @@ def run(ctx):
         if bad:
             ctx.violation(bad[0], info, {"where": bad[1]}, True, signature={"clause": bad[0]}); continue
         # ---- the same request on the same pose with a torch body: the selection is by name, so the result may not depend on the body class
-        if b0["frames"] > 0 and b0["people"] > 0:
+        if b0["frames"] > 0 and b0["people"] > 0 and not extra:
             try:
                 pt = pc.build_pose(case).torch()
                 rt = pt.get_components(req, points) if mode == "get" else pt.remove_components(req, points)
@@ -164,6 +173,25 @@ def holistic_header():
     return PoseHeader(0.2, PoseHeaderDimensions(100, 100, 100), comps)
 
 
+_RT = []
+
+
+def reduce_tables():
+    """(ignore_names, face_contours) as written in reduce_holistic's source (read with ast: the tables are part of what the helper 'names')"""
+    if not _RT:
+        import pose_format
+        src = open(os.path.join(os.path.dirname(pose_format.__file__), "utils", "generic.py")).read()
+        t = {}
+        for n in ast.walk(ast.parse(src)):                     # wherever the tables live in the module
+            if isinstance(n, ast.Assign) and getattr(n.targets[0], "id", None) in ("ignore_names", "face_contours") and n.targets[0].id not in t:
+                try:
+                    t[n.targets[0].id] = ast.literal_eval(n.value)
+                except Exception:
+                    pass
+        _RT.append((t.get("ignore_names"), t.get("face_contours")))
+    return _RT[0]
+
+
 def helpers(ctx):
     from pose_format import Pose
     from pose_format.numpy import NumPyPoseBody
@@ -196,6 +224,10 @@ def helpers(ctx):
             comp = header.components[0]
             drop = rng.sample([p for p in comp.points if "rist" not in p and "RIST" not in p], rng.randint(1, 3))
             variants.append((kind, make(header, dims).remove_components([], {comp.name: drop}).header, dims))
+        # … and the layout pose_hide_legs(remove=True) leaves (no hips): helpers that remember a layout from an earlier pose of the same format go wrong on the next one,
+        # in whichever order the two come — the order is drawn per repetition
+        variants.append(("holistic", make(hol, 3).remove_components([], {"POSE_LANDMARKS": ["LEFT_HIP", "RIGHT_HIP"]}).header, 3))
+        rng.shuffle(variants)
         for kind, header, dims in variants:
             pose = make(header, dims)
             src = pc.canon_pose(pose)
@@ -236,6 +268,17 @@ def helpers(ctx):
                     idx = named(header, names)
                     if len(idx) != red.header.total_points() or not np.array_equal(np.asarray(red.body.data.data), a[:, :, idx]) or any(c.name == "POSE_WORLD_LANDMARKS" for c in red.header.components):
                         ctx.violation("reduce_holistic does not keep exactly the named points with their values", {"format": kind}, {}, True, signature={"clause": "reduce_holistic"})
+                    # exactly the points it names are dropped: face points off the contours, face / finger / foot points of the body, the world landmarks — nothing else
+                    ignore, contours = reduce_tables()
+                    want = []
+                    ctx.count("reduce_holistic set check" if ignore and contours else "reduce_holistic tables not found in the source")
+                    for c in (header.components if ignore and contours else []):
+                        if c.name == "POSE_WORLD_LANDMARKS": continue
+                        keep = [p for p in c.points if not any(w in p for w in ignore)] if c.name == "POSE_LANDMARKS" else ([p for p in contours if p in c.points] if c.name == "FACE_LANDMARKS" else list(c.points))
+                        want += [(c.name, p) for p in keep]
+                    if ignore and contours and sorted(names) != sorted(want):
+                        ctx.violation("reduce_holistic drops a point it does not name, or keeps one it names", {"format": kind},
+                                      {"lost": sorted(set(want) - set(names))[:6], "extra": sorted(set(names) - set(want))[:6]}, True, signature={"clause": "reduce_holistic_set"})
             except Exception as e:
                 ctx.violation("a known-format helper fails on a pose of its format", {"format": kind, "points": N}, {"error": "%s: %s" % (type(e).__name__, e)}, True, signature={"clause": "helper_raises"})
     for (kind, what, got), mo in zip(model_meta, ctx.driver.run(model_reqs) if model_reqs else []):
